@@ -732,6 +732,13 @@ def gen_C07(rng, tier):
     # equal images are where a dedicated (non-unified) addition degenerates (seed C07_r8); also one image the identity (r = 0)
     for a in rng.sample(vals, min(len(vals), 6 if tier == 'quick' else 60)) + [0, 1]:
         h2c_pairs += [('equal', a, a), ('negated', a, (q - a) % q), ('with-zero', a, 0), ('zero-with', 0, a)]
+    # algebraically related inputs (r2 a simple function of r1, in either position): where a shortcut keyed on a relation between
+    # the two inputs would fire (seed C07_r12: `r1^2 == r2` for `r1^2 == r2^2`)
+    inv = lambda x: pow(x, q - 2, q)
+    for a in rng.sample(vals, min(len(vals), 4 if tier == 'quick' else 40)) + [2, 3, q - 5]:
+        for name, b in (('square', a * a % q), ('neg-square', (q - a * a) % q), ('inverse', inv(a)), ('double', 2 * a % q), ('succ', (a + 1) % q),
+                        ('zeta-multiple', M.zeta * a % q), ('cube', pow(a, 3, q)), ('fourth', pow(a, 4, q))):
+            h2c_pairs += [('related:' + name, a, b), ('related:' + name + ':swapped', b, a)]
     for cls, a, b in h2c_pairs:
         cases.append(Case(prog(['h=h2c:%s,%s' % (h32(a), h32(b)), 'X=ell:%s' % h32(a), 'Y=ell:%s' % h32(b), 's=add:X,Y', 'eq:h,s', 'enc:h', 'enc:s', 'd=dbl:X', 'enc:d']),
                           cls='hash_to_curve:' + cls,
@@ -1049,6 +1056,13 @@ def gen_C12(rng, tier):
     for cls, b in near_misses(rng, encs[:5] if tier == 'quick' else encs):
         for form in DEC_FORMS_MIN[:3] if tier == 'quick' else DEC_FORMS_MIN:
             cases.append(Case(prog(['r1=dec.%s:%s' % (form, b), 'enc:r1', 'isid:r1']), cls='decode'))
+    # slices of every length 0..80 through the slice entry points both builds offer: same verdict (length error unless exactly 32)
+    base = bytes.fromhex(h32(encs[2]))
+    for ln in range(0, 81):
+        bs = (base + bytes(rng.getrandbits(8) for _ in range(48)))[:ln]
+        for form in ('try_slice', 'enc_try_slice'):
+            cases.append(Case(prog(['r1=dec.%s:%s' % (form, hexb(bs)), 'enc:r1']), cls='decode-slice:len%s' % ('lt32' if ln < 32 else ('eq32' if ln == 32 else 'gt32')),
+                              oracle=(lambda out, bld, ln=ln: None if (ln == 32) or out == 'err-len' else 'a slice of %d bytes was not rejected as a length error' % ln)))
     for r0 in special_fq(rng, 10 if tier == 'quick' else 200):
         cases.append(Case(prog(['E=ell:%s' % h32(r0), 'enc:E', 'isid:E', 'h=h2c:%s,%s' % (h32(r0), h32(rng.randrange(q))), 'enc:h']), cls='elligator'))
         # dependent inputs of the two-input hash (equal / negated / zero): where the two backends' additions could differ
@@ -1211,6 +1225,11 @@ def gen_C13(rng, tier):
                 return None if f.get('sat') == '0' else 'invalid encoding decoded in-circuit by the honest prover'
             return None if f.get('sat') == '1' and f.get('out') == h32(ne) else 'decompress gadget differs from native decoding'
         cases.append(Case('g.decompress s=%s' % h32(v), builds=R, cls='decompress:' + cls, oracle=orc, canon=gcanon))
+        if ne is None:
+            # an invalid CONSTANT encoding has no constraint system to be unsatisfied in: synthesis itself must fail (or leave an
+            # unsatisfied system) — handing back a variable is decoding an invalid encoding
+            cases.append(Case('g.decompress s=%s fmode=const' % h32(v), builds=R, cls='decompress:const-invalid:' + cls, nomodel=True,
+                              oracle=lambda out, bld: None if out.startswith('synth-err') or gfields(out).get('sat') == '0' else 'invalid constant encoding decoded in-circuit'))
         if ne is not None:
             # a constant valid encoding decodes to the same element (an invalid constant has no system to be unsatisfied in)
             cases.append(Case('g.decompress s=%s fmode=const' % h32(v), builds=R, cls='decompress:const:' + cls, canon=gcanon,
@@ -1385,6 +1404,11 @@ def gen_C14(rng, tier):
                               sig='isqrt:den%s:hint=%d:y2=%s' % ('0' if x == 0 else 'N', fl, '1' if y * y % q == 1 else ('0' if y == 0 else 'x'))))
     # decompress under every hint
     svals = [v for v in ([0, 8, 1, 2, q - 1, q - 2, (q - 1) // 2] + encs + [rng.randrange(q) for _ in range(6 if tier == 'quick' else 60)]) if v < q]
+    for s in svals:
+        if native_decode_enc(s) is None:
+            # as a constant: nothing the prover chooses, no system to be unsatisfied in — synthesis must fail
+            cases.append(Case('g.decompress s=%s fmode=const' % h32(s), builds=R, cls='decompress:const-invalid', nomodel=True,
+                              oracle=lambda out, bld: None if out.startswith('synth-err') or gfields(out).get('sat') == '0' else 'invalid constant encoding decoded in-circuit'))
     for s in svals:
         ss = s * s % q
         u1 = (1 - ss) % q
